@@ -31,10 +31,10 @@ pub const DEEP_OPS: [&str; 35] = [
     "reshape", "permute", "stack", "concat", "constant", "zeros", "ones", "tuple", "tuple", "tupleget", "tupleget",
     "vector", "vector", "named", "namedget", "namedget", "vectorget", "vectorget", "zip", "repeat", "a2v", "v2a",
 ];
-/// additive / bilinear / share-wise unary operations (the fragment of C01_deep_compile_correct_partial)
-pub const DEEP_THEOREM_OPS: [&str; 18] = [
+/// additive / bilinear / share-wise unary and n-ary operations (the fragment of C01_deep_compile_correct_partial)
+pub const DEEP_THEOREM_OPS: [&str; 21] = [
     "add", "sub", "mul", "mul", "mul", "dot", "matmul", "gemm", "sum", "cumsum", "get", "getslice", "reshape", "permute", "constant",
-    "zeros", "ones", "mul",
+    "zeros", "ones", "mul", "stack", "concat", "stack",
 ];
 /// product-heavy programs: private x private products feeding products, so that the planner reshapes
 /// its plan (ensure_dependencies_are_reshared, sanity_pass) and reshare blocks are emitted
